@@ -20,18 +20,31 @@ def timed(i, logfile, dur, level):
     return i
 
 
-def nested(level, depth, inner_n, logfile, path):
+def nested(level, depth, inner_n, logfile, path, mid_style="default"):
     """log (level, pid, tid, path, parent pid, parent tid) and recurse with a default Parallel"""
-    return _child(level, depth, inner_n, logfile, path, (0, 0))
+    return _child(level, depth, inner_n, logfile, path, (0, 0), mid_style)
 
 
-def _child(level, depth, inner_n, logfile, path, parent):
-    from joblib import Parallel, delayed
+def _child(level, depth, inner_n, logfile, path, parent, mid_style="default"):
+    import contextlib
+    from joblib import Parallel, delayed, parallel_config
     pid, tid = os.getpid(), threading.get_native_id()
     _append(logfile, f"{level} {pid} {tid} {'.'.join(map(str, path))} {parent[0]} {parent[1]}\n")
     time.sleep(0.01)
     if level + 1 < depth:
         me = (pid, tid)
-        Parallel(n_jobs=inner_n, batch_size=1)(
-            delayed(_child)(level + 1, depth, inner_n, logfile, path + [j], me) for j in range(inner_n + 1))
+        # the call made by a level-0 task may carry hints / constraints or sit in a context block, all of which still
+        # give a thread-based backend; every deeper call is a plain default call
+        ctx, kw = contextlib.nullcontext(), {}
+        if level == 0 and mid_style != "default":
+            for part in mid_style.split("+"):
+                if part.startswith("ctx-"):
+                    ctx = parallel_config(backend=part[4:])
+                elif part == "require-sharedmem":
+                    kw["require"] = "sharedmem"
+                elif part == "prefer-threads":
+                    kw["prefer"] = "threads"
+        with ctx:
+            Parallel(n_jobs=inner_n, batch_size=1, **kw)(
+                delayed(_child)(level + 1, depth, inner_n, logfile, path + [j], me) for j in range(inner_n + 1))
     return level
